@@ -26,11 +26,18 @@ def decide(run: core.Run, rule: str, search):
     """Turn probe failures / broken proofs / broken correspondence into the exit status."""
     prop = run.prop
     known = [k for k in core.load_known_findings() if k.get("property") == prop]
-    open_keys = {k["key"]: k for k in known if k.get("status") == "open"}
+    open_findings = [k for k in known if k.get("status") == "open"]
+
+    def is_known(f):
+        """an open finding names a failure key and, to stay specific, a text that must occur in the description or the
+        recorded input (`match`); a different violation of the same property is still reported"""
+        blob = f["desc"] + " " + json.dumps(f["replay"], default=str)
+        return any(k["key"] == f["key"] and (not k.get("match") or k["match"] in blob) for k in open_findings)
+    open_keys = {k["key"] for k in open_findings}
     violations = []
     known_hits = {}
     for f in run.failures:
-        if f["key"] in open_keys:
+        if is_known(f):
             known_hits.setdefault(f["key"], f)
         else:
             violations.append(f)
@@ -60,7 +67,7 @@ def decide(run: core.Run, rule: str, search):
             if srun.failures:
                 found_by = {"seed": srun.seed, "budget": getattr(srun, "budget", 1)}
             for f in srun.failures:
-                if f["key"] not in open_keys:
+                if not is_known(f):
                     violations.append(f)
                 else:
                     known_hits.setdefault(f["key"], f)
@@ -109,7 +116,30 @@ THOROUGH_BUDGET = {"C10": 40, "C14": 60, "C15": 20}
 SEARCH_FACTOR = {"C15": 1, "C14": 2}
 
 
+class WorkloadTimeout(BaseException):
+    """not an Exception: the probes' `safe()` must not mistake it for an error of the library call it interrupts"""
+
+
+def _deadline(tier):
+    """seconds a whole workload may take before it is abandoned (environment override: VERIF_DEADLINE_S)"""
+    return int(os.environ.get("VERIF_DEADLINE_S", "0") or 0) or (1500 if tier == "quick" else 7200)
+
+
 def run_property(prop: str, tier: str, seed: int, budget: int, with_lean=True) -> core.Run:
+    import signal
+
+    def on_alarm(signum, frame):
+        raise WorkloadTimeout(f"the workload of {prop} did not finish within {_deadline(tier)} s")
+    old = signal.signal(signal.SIGALRM, on_alarm)
+    signal.alarm(_deadline(tier))
+    try:
+        return _run_property(prop, tier, seed, budget, with_lean)
+    finally:
+        signal.alarm(0)
+        signal.signal(signal.SIGALRM, old)
+
+
+def _run_property(prop: str, tier: str, seed: int, budget: int, with_lean=True) -> core.Run:
     run = core.Run(prop, tier, seed)
     run.budget = budget
     if with_lean:
@@ -119,7 +149,8 @@ def run_property(prop: str, tier: str, seed: int, budget: int, with_lean=True) -
     R.install_oracle_wrapper()
     R.install_shuffle_wrapper()
     if prop == "C14":
-        from harness import c14
+        from harness import c14, props
+        props.work_corpus(run, prop, rng)
         run.rule = c14.work_C14(run, rng, budget)
     else:
         from harness import props
@@ -146,6 +177,12 @@ def replay(path: str) -> int:
     prop = obj["property"]
     print(f"replaying {path} for {prop}")
     if "no_longer_checks" in obj:
+        if any(b.get("what") == "leanchecker" for b in obj["no_longer_checks"]):
+            rcl, out = core.sh(["lake", "env", "leanchecker", f"TucanProofs.Props.{prop}"], cwd=core.LEAN, timeout=3000)
+            print(out[-1500:])
+            if rcl != 0:
+                print(f"VIOLATION property={prop} replay={path} no-failing-input-found")
+                return 1
         run = run_property(prop, "quick", int(obj.get("seed", 0)), 1)
         rc, lines, _ = decide(run, "", lambda: run_property(prop, "quick", int(obj.get("seed", 0)) + 1, 3, with_lean=False))
         print("\n".join(lines))
@@ -178,6 +215,9 @@ def main():
             rc = replay(a.replay)
         except SystemExit:
             raise
+        except WorkloadTimeout as e:
+            print(f"TIMEOUT {e}")
+            rc = 2
         except Exception:
             traceback.print_exc()
             rc = 2
@@ -198,9 +238,10 @@ def main():
                 lines.append(f"VIOLATION property={prop} replay={core.write_replay(prop, 'leanchecker', {'property': prop, 'no_longer_checks': [{'what': 'leanchecker', 'detail': out[-2000:]}]})} no-failing-input-found")
                 rc = 1
                 nviol += 1
-        core.write_evidence(run, "proof", extra, nviol)
         for l in lines:
             print(l)
+        sys.stdout.flush()
+        core.write_evidence(run, "proof", extra, nviol)
         lean = run.lean or {}
         print(f"[{prop}] tier={tier} seed={seed} theorems={len(lean.get('theorems', []))} proofs_ok={lean.get('proofs_ok')} "
               f"corr_ops={len(run.ops)} disagree={run.stats.get('corr_disagree', 0)} cases={run.stats.get('evaluations', 0)} "
@@ -208,6 +249,9 @@ def main():
         sys.exit(rc)
     except SystemExit:
         raise
+    except WorkloadTimeout as e:
+        print(f"TIMEOUT {e}")
+        sys.exit(2)
     except Exception:
         traceback.print_exc()
         sys.exit(2)
